@@ -25,6 +25,8 @@ def pats(kind):
         sp = Atoms(elements=['C', 'N'], positions=[[0., 0, 0], [1.2, 0, 0]])
         if kind == 'keep-N':       # N shared by both patterns (retained), C replaced
             rp = Atoms(elements=['S', 'N'], positions=[[0., 0, 0], [1.2, 0, 0]])
+        elif kind == 'moved-N':    # N displaced by 0.002 A: not the same coordinates, so N is NOT shared and both matches remove it
+            rp = Atoms(elements=['S', 'N'], positions=[[0., 0, 0], [1.202, 0, 0]])
         elif kind == 'keep-C':     # C retained, N replaced -> overlapping matches both remove the shared N
             rp = Atoms(elements=['C', 'P'], positions=[[0., 0, 0], [1.2, 0, 0]])
         elif kind == 'keep-both':
@@ -85,7 +87,7 @@ def check(spec):
     if res is not None and not overlap:
         # each structure atom removed at most once: atom count as computed from distinct removed atoms
         nmatch = {'CNC': 2, 'CNCNC': 4, 'separate': 2}[spec['structure']]
-        shared = {} if spec['replace_all'] else {'keep-N': 1, 'keep-C': 1, 'keep-both': 2, 'none-shared': 0, 'empty': 0}[spec['pattern']]
+        shared = {} if spec['replace_all'] else {'keep-N': 1, 'keep-C': 1, 'keep-both': 2, 'none-shared': 0, 'empty': 0, 'moved-N': 0}[spec['pattern']]
         shared = 0 if spec['replace_all'] else shared
         removed_per = 2 - shared
         added_per = len(rp.positions) - shared
@@ -111,7 +113,7 @@ def run(rec, tier, seed):
                 "the caller did not ask to ignore it. distinct = all combinations (exhaustive over this grid)")
     rec.exhaustive = True
     for st in ('CNC', 'CNCNC', 'separate'):
-        for pk in ('keep-N', 'keep-C', 'keep-both', 'none-shared', 'empty'):
+        for pk in ('keep-N', 'keep-C', 'keep-both', 'none-shared', 'empty', 'moved-N'):
             for ra in (False, True):
                 for ig in (False, True):
                     spec = dict(structure=st, pattern=pk, replace_all=ra, ignore=ig)
